@@ -269,6 +269,10 @@ for uid, name, q in req.get('structs', []):
                     cs.append(qn)
         if len(cs) == 1:
             t = gdb.lookup_type(cs[0])
+        elif len(cs) == 0 and q:
+            # only forward-declared in this translation unit: an incomplete type, usable through pointers only
+            out['structs'][uid] = {'qname': q, 'kind': 'struct', 'incomplete': True}
+            continue
         else:
             out['structs'][uid] = {'error': 'cannot resolve struct %s (uid %s, hint %s): candidates %s' % (name, uid, q, cs[:8])}
             continue
